@@ -24,7 +24,8 @@ type rtResult struct {
 	wire     []byte
 	failKey  string // "" = equal
 	failWhat string
-	skipped  string // value not encodable by design (documented precondition)
+	skipped  string   // value not encodable by design (documented precondition)
+	rel      []string // relations between the id lists of the value (overlaps)
 }
 
 type encoder interface {
@@ -161,9 +162,21 @@ func genAdv(r *rand.Rand, extraSymref bool) advModel {
 		m.features = append(m.features, "symref")
 	}
 	m.caps = genCaps(r, m.hsz, sr, m.hsz == 32)
+	if len(refs) > 2 && r.Intn(3) == 0 { // several references (and peeled entries) point at the same object
+		shared := refs[len(refs)-1].Hash()
+		for i, ref := range refs {
+			if ref.Name() != plumbing.HEAD && r.Intn(2) == 0 {
+				refs[i] = plumbing.NewHashReference(ref.Name(), shared)
+			}
+		}
+		m.features = append(m.features, "refs-share-ids")
+	}
 	m.refs = refs
 	if r.Intn(4) == 0 {
 		m.shallows = hashList(r, m.hsz, 3, false)
+		if len(refs) > 0 && r.Intn(2) == 0 {
+			m.shallows = append(m.shallows, refs[r.Intn(len(refs))].Hash()) // a shallow boundary that is also a ref tip
+		}
 		if len(m.shallows) > 0 {
 			m.features = append(m.features, "shallow")
 		}
@@ -280,13 +293,17 @@ type simpleCase struct {
 	dec   func(wire []byte) (canon string, err error)
 	want  string   // canonical rendering of the value
 	feat  []string // features for keys
+	rel   []string // relations between id lists (overlaps); part of shape and key
 }
 
 func runSimple(sc simpleCase) rtResult {
-	res := rtResult{msg: sc.msg, shape: sc.msg + "/" + sc.shape}
+	res := rtResult{msg: sc.msg, shape: sc.msg + "/" + sc.shape, rel: sc.rel}
+	if len(sc.rel) > 0 {
+		res.shape += "/" + strings.Join(sc.rel, ",")
+	}
 	wire, err := enc(sc.enc)
 	res.wire = wire
-	feat := strings.Join(sc.feat, ",")
+	feat := strings.Join(append(append([]string{}, sc.feat...), sc.rel...), ",")
 	if err != nil {
 		res.failKey, res.failWhat = sc.msg+":encode-"+errKind(err)+":"+feat, fmt.Sprintf("Encode of a well-formed value (%s): %v", sc.want, err)
 		return res
@@ -324,6 +341,7 @@ type ulreqModel struct {
 	not      []string
 	filter   string
 	feat     []string
+	rel      []string
 }
 
 func genUlreq(r *rand.Rand) ulreqModel {
@@ -342,6 +360,19 @@ func genUlreq(r *rand.Rand) ulreqModel {
 		if len(m.shallows) > 0 {
 			m.feat = append(m.feat, "shallow")
 		}
+	}
+	if r.Intn(2) == 0 { // wants and shallows drawn from one small pool: they overlap
+		l := poolLists(r, m.hsz, 2)
+		m.wants, m.shallows = l[0], l[1]
+		m.feat = nil
+		if m.caps.IsEmpty() {
+			m.feat = append(m.feat, "no-caps")
+		}
+		m.feat = append(m.feat, "shallow")
+	}
+	m.rel = relations([]string{"wants", "shallows"}, [][]plumbing.Hash{m.wants, m.shallows})
+	for _, x := range m.rel {
+		m.feat = append(m.feat, "rel:"+x)
 	}
 	switch r.Intn(6) {
 	case 0:
@@ -416,6 +447,33 @@ func (m ulreqModel) without(f string) ulreqModel {
 		n.since, n.not = 0, nil
 	case "filter":
 		n.filter = ""
+	default:
+		if strings.HasPrefix(f, "rel:") { // undo the overlap: make the lists disjoint and duplicate-free
+			inW := map[string]bool{}
+			var w []plumbing.Hash
+			for _, h := range m.wants {
+				if !inW[h.String()] {
+					inW[h.String()] = true
+					w = append(w, h)
+				}
+			}
+			seen := map[string]bool{}
+			var sh []plumbing.Hash
+			for i, h := range m.shallows {
+				for inW[h.String()] || seen[h.String()] {
+					h = perturb(h, i+1)
+				}
+				seen[h.String()] = true
+				sh = append(sh, h)
+			}
+			n.wants, n.shallows = w, sh
+			n.feat = nil
+			for _, x := range m.feat {
+				if !strings.HasPrefix(x, "rel:") {
+					n.feat = append(n.feat, x)
+				}
+			}
+		}
 	case "sha256":
 		return m // cannot be removed without regenerating the ids
 	}
@@ -425,13 +483,32 @@ func (m ulreqModel) without(f string) ulreqModel {
 // ulreqRoundTrip runs the round trip and reduces the feature set of a failing value to a 1-minimal one.
 func ulreqRoundTrip(m ulreqModel) rtResult {
 	res := ulreqRoundTripOnce(m)
+	res.rel = m.rel
 	if res.failKey == "" {
 		return res
 	}
 	base := strings.SplitN(res.failKey, ":", 3)
+	fails := func(x ulreqModel) bool {
+		r2 := ulreqRoundTripOnce(x)
+		return r2.failKey != "" && strings.HasPrefix(r2.failKey, base[0]+":"+base[1])
+	}
+	// which relation between the id lists is responsible? probe the most specific ones first
+	relKey := ""
+	for _, pr := range ulreqRelProbes {
+		has := false
+		for _, x := range m.rel {
+			if x == pr.name {
+				has = true
+			}
+		}
+		if has && !fails(pr.undo(m)) {
+			relKey = "rel:" + pr.name
+			break
+		}
+	}
 	cur := m
 	for _, f := range m.feat {
-		if f == "sha1" || f == "sha256" {
+		if f == "sha1" || f == "sha256" || (relKey != "" && strings.HasPrefix(f, "rel:")) {
 			continue
 		}
 		n := cur.without(f)
@@ -442,15 +519,64 @@ func ulreqRoundTrip(m ulreqModel) rtResult {
 	}
 	var keep []string
 	for _, f := range cur.feat {
-		if f != "sha1" && f != "sha256" {
+		if f != "sha1" && f != "sha256" && !(relKey != "" && strings.HasPrefix(f, "rel:")) {
 			keep = append(keep, f)
 		}
+	}
+	if relKey != "" {
+		keep = append(keep, relKey)
 	}
 	if len(keep) == 0 {
 		keep = []string{hszName(m.hsz)}
 	}
 	res.failKey = base[0] + ":" + base[1] + ":" + strings.Join(keep, ",")
 	return res
+}
+
+func dedupeIDs(l []plumbing.Hash) []plumbing.Hash {
+	seen := map[string]bool{}
+	var out []plumbing.Hash
+	for _, h := range l {
+		if !seen[h.String()] {
+			seen[h.String()] = true
+			out = append(out, h)
+		}
+	}
+	return out
+}
+
+// ulreqRelProbes undo one relation between wants and shallows each, keeping everything else.
+var ulreqRelProbes = []struct {
+	name string
+	undo func(ulreqModel) ulreqModel
+}{
+	{"max(wants)=min(shallows)", func(m ulreqModel) ulreqModel {
+		n := m
+		w, sh := sortedHex(m.wants), sortedHex(m.shallows)
+		n.shallows = nil
+		for i, h := range m.shallows {
+			if h.String() == sh[0] && sh[0] == w[len(w)-1] {
+				h = perturb(h, i+1) // still a member of shallows, no longer equal to the largest want
+			}
+			n.shallows = append(n.shallows, h)
+		}
+		return n
+	}},
+	{"max(shallows)=min(wants)", func(m ulreqModel) ulreqModel {
+		n := m
+		w, sh := sortedHex(m.wants), sortedHex(m.shallows)
+		n.shallows = nil
+		for i, h := range m.shallows {
+			if h.String() == sh[len(sh)-1] && sh[len(sh)-1] == w[0] {
+				h = perturb(h, i+1)
+			}
+			n.shallows = append(n.shallows, h)
+		}
+		return n
+	}},
+	{"dup(shallows)", func(m ulreqModel) ulreqModel { n := m; n.shallows = dedupeIDs(m.shallows); return n }},
+	{"dup(wants)", func(m ulreqModel) ulreqModel { n := m; n.wants = dedupeIDs(m.wants); return n }},
+	{"wants&shallows", func(m ulreqModel) ulreqModel { return m.without("rel:wants&shallows") }},
 }
 
 func ulreqRoundTripOnce(m ulreqModel) rtResult {
@@ -477,9 +603,14 @@ func otherCases(r *rand.Rand, k int) []simpleCase {
 	switch k % 9 {
 	case 0: // UploadHaves
 		haves := hashList(r, hsz, 6, true)
+		if r.Intn(3) == 0 {
+			haves = poolLists(r, hsz, 1)[0]
+			haves = append(haves, haves[r.Intn(len(haves))]) // a repeated have
+		}
+		rel := relations([]string{"haves"}, [][]plumbing.Hash{haves})
 		done := r.Intn(2) == 0
 		v := &packp.UploadHaves{Haves: append([]plumbing.Hash{}, haves...), Done: done}
-		out = append(out, simpleCase{msg: "UploadHaves", shape: fmt.Sprintf("haves=%d,done=%v,%s", len(haves), done, hn), feat: []string{fmt.Sprintf("done=%v", done), hn},
+		out = append(out, simpleCase{msg: "UploadHaves", shape: fmt.Sprintf("haves=%d,done=%v,%s", len(haves), done, hn), feat: []string{fmt.Sprintf("done=%v", done), hn}, rel: rel,
 			want: fmt.Sprintf("haves[%s] done=%v", hexes(haves), done),
 			enc:  func(b *bytes.Buffer) error { return v.Encode(b) },
 			dec: func(w []byte) (string, error) {
@@ -530,11 +661,16 @@ func otherCases(r *rand.Rand, k int) []simpleCase {
 			}})
 	case 2: // ShallowUpdate
 		sh, un := hashList(r, hsz, 4, false), hashList(r, hsz, 3, false)
+		if r.Intn(2) == 0 {
+			l := poolLists(r, hsz, 2)
+			sh, un = l[0], l[1]
+		}
+		rel := relations([]string{"shallow", "unshallow"}, [][]plumbing.Hash{sh, un})
 		v := &packp.ShallowUpdate{Shallows: sh, Unshallows: un}
 		c := func(s *packp.ShallowUpdate) string {
 			return fmt.Sprintf("shallow[%s] unshallow[%s]", hexesOrdered(s.Shallows), hexesOrdered(s.Unshallows))
 		}
-		out = append(out, simpleCase{msg: "ShallowUpdate", shape: fmt.Sprintf("s=%d,u=%d,%s", len(sh), len(un), hn), feat: []string{hn}, want: c(v),
+		out = append(out, simpleCase{msg: "ShallowUpdate", shape: fmt.Sprintf("s=%d,u=%d,%s", len(sh), len(un), hn), feat: []string{hn}, rel: rel, want: c(v),
 			enc: func(b *bytes.Buffer) error { return v.Encode(b) },
 			dec: func(w []byte) (string, error) {
 				g := &packp.ShallowUpdate{}
@@ -659,11 +795,19 @@ func otherCases(r *rand.Rand, k int) []simpleCase {
 		fa := &packp.FetchArgs{Wants: append([]plumbing.Hash{rhash(r, hsz)}, hashList(r, hsz, 2, false)...), Haves: hashList(r, hsz, 3, false), Done: r.Intn(2) == 0,
 			ThinPack: r.Intn(2) == 0, NoProgress: r.Intn(2) == 0, IncludeTag: r.Intn(2) == 0, OFSDelta: r.Intn(2) == 0, WaitForDone: r.Intn(3) == 0}
 		ff := "plain"
+		var pooled [][]plumbing.Hash
+		if r.Intn(2) == 0 { // wants, haves and shallows from one pool
+			pooled = poolLists(r, hsz, 3)
+			fa.Wants, fa.Haves = pooled[0], pooled[1]
+		}
 		switch r.Intn(4) {
 		case 0:
 			fa.Deepen = 1 + r.Intn(9)
 			fa.DeepenRelative = r.Intn(2) == 0
 			fa.Shallows = hashList(r, hsz, 2, false)
+			if pooled != nil {
+				fa.Shallows = pooled[2]
+			}
 			ff = "deepen"
 		case 1:
 			fa.DeepenSince = time.Unix(int64(1+r.Intn(2000000000)), 0).UTC()
@@ -681,7 +825,8 @@ func otherCases(r *rand.Rand, k int) []simpleCase {
 			return fmt.Sprintf("cmd=%s wants[%s] haves[%s] done=%v thin=%v noprog=%v tag=%v ofs=%v shallows[%s] deepen=%d rel=%v since=%d not=%q filter=%q wfd=%v", c.Command, hexes(a.Wants), hexes(a.Haves), a.Done, a.ThinPack, a.NoProgress, a.IncludeTag, a.OFSDelta, hexes(a.Shallows), a.Deepen, a.DeepenRelative, since, append([]string{}, a.DeepenNot...), a.Filter, a.WaitForDone)
 		}
 		cr2 := &packp.CommandRequest{Command: "fetch", Capabilities: *cloneCaps(cl), Args: fa}
-		out = append(out, simpleCase{msg: "CommandRequest(fetch)", shape: ff + "," + hn, feat: []string{ff, hn}, want: cF(cr2, fa),
+		relF := relations([]string{"wants", "haves", "shallows"}, [][]plumbing.Hash{fa.Wants, fa.Haves, fa.Shallows})
+		out = append(out, simpleCase{msg: "CommandRequest(fetch)", shape: ff + "," + hn, feat: []string{ff, hn}, rel: relF, want: cF(cr2, fa),
 			enc: func(b *bytes.Buffer) error { return cr2.Encode(b) },
 			dec: func(w []byte) (string, error) {
 				ga := &packp.FetchArgs{}
@@ -758,6 +903,7 @@ type updreqModel struct {
 	cmds     []updCmd
 	shallows []plumbing.Hash
 	feat     []string
+	rel      []string
 }
 
 func genUpdreq(r *rand.Rand, hsz int) updreqModel {
@@ -793,16 +939,41 @@ func genUpdreq(r *rand.Rand, hsz int) updreqModel {
 		}
 		m.cmds = append(m.cmds, c)
 	}
+	if r.Intn(2) == 0 && len(m.cmds) > 0 { // ids shared between commands: new of one is old of another, old == new, same new everywhere
+		p := poolLists(r, hsz, 1)[0]
+		for i := range m.cmds {
+			c := &m.cmds[i]
+			if !c.old.IsZero() {
+				c.old = p[i%len(p)]
+			}
+			if !c.new.IsZero() {
+				c.new = p[(i+r.Intn(2))%len(p)]
+			}
+		}
+	}
+	var olds, news []plumbing.Hash
+	for _, c := range m.cmds {
+		if !c.old.IsZero() {
+			olds = append(olds, c.old)
+		}
+		if !c.new.IsZero() {
+			news = append(news, c.new)
+		}
+	}
 	for k := range kinds {
 		m.feat = append(m.feat, k)
 	}
 	sort.Strings(m.feat)
 	if r.Intn(5) == 0 {
 		m.shallows = hashList(r, hsz, 2, false)
+		if len(news) > 0 && r.Intn(2) == 0 {
+			m.shallows = []plumbing.Hash{news[len(news)-1]} // the pushed tip is itself a shallow boundary
+		}
 		if len(m.shallows) > 0 {
 			m.feat = append(m.feat, "shallow")
 		}
 	}
+	m.rel = relations([]string{"old", "new", "shallows"}, [][]plumbing.Hash{olds, news, m.shallows})
 	m.feat = append(m.feat, hszName(hsz))
 	return m
 }
@@ -827,7 +998,7 @@ func canonUpdreq(v *packp.UpdateRequests) string {
 
 func (m updreqModel) simple() simpleCase {
 	v := m.value()
-	return simpleCase{msg: "UpdateRequests", shape: strings.Join(m.feat, ",") + fmt.Sprintf("/cmds=%d", len(m.cmds)), feat: m.feat, want: canonUpdreq(m.value()),
+	return simpleCase{msg: "UpdateRequests", shape: strings.Join(m.feat, ",") + fmt.Sprintf("/cmds=%d", len(m.cmds)), feat: m.feat, rel: m.rel, want: canonUpdreq(m.value()),
 		enc: func(b *bytes.Buffer) error { return v.Encode(b) },
 		dec: func(w []byte) (string, error) {
 			g := &packp.UpdateRequests{}
